@@ -109,6 +109,7 @@ fn main() {
         "C05" => asm::run(&o),
         "C19" => asm::run_seq(&o),
         "C19W" => cli::run_c19w(&o),
+        "C09P" => cli::run_c09p(&o),
         "C01" | "C04" => enc::run(&o),
         "C18" => flag::run(&o),
         other => {
